@@ -537,18 +537,18 @@ static std::string op_disp(const std::vector<std::string> &w)
     d->obj = sugar ? (void *) &g_root : (void *) &g_cb;
     d->loc = locbuf;
     d->loc_size = sizeof(locbuf);
+    d->port = NULL;
     g_cb = 0;
     RT_BEGIN();
     if(loc) rte::dispatch_loc(ports, (const char *) m.data(), d, base);
     else    rte::dispatch_noloc(ports, (const char *) m.data(), d, base);
     RT_END();
     std::ostringstream o;
-    o << hits_str() << " matches=" << d->matches << " cb=" << g_cb;
+    o << hits_str() << " matches=" << d->matches << " cb=" << g_cb << " port=" << ((d->matches || g_cb) && d->port ? hexs(d->port->name) : std::string("-"));
     if(cd) {
-        uint64_t h = 1469598103934665603ull;
-        for(size_t i = 0; i < cd->last_len; ++i) h = (h ^ (unsigned char) cd->last[i]) * 1099511628211ull;
+        // (the reply bytes themselves are not printed: `self` ports reply object addresses)
         o << " replies=" << cd->replies << " bcasts=" << cd->broadcasts << " arrays=" << cd->arrays << " chains=" << cd->chains
-          << " last=" << cd->last_len << ":" << hx64(h);
+          << " last=" << cd->last_len;
     }
     o << " state=" << (int) g_root.mid.vol << "," << g_root.mid.count << "," << (int) g_root.mid.on << "," << g_root.mid.mode << ","
       << g_root.level << "," << g_root.mid.acted << "," << (int) g_root.mid.sub.pc;
